@@ -58,6 +58,10 @@ class Monitor(object):
         fin = [Fs(d) for d in dates if d not in (float("inf"), False) and d == d]
         return len(fin) != len(set(fin))
 
+    def on_init(self, Q):
+        if self.coincidence(Q):          # e.g. the first arrival and the first slot / shift change
+            self.hub.flags.add("coincident_events")
+
     def on_boundary(self, Q):
         if self.coincidence(Q):
             self.hub.flags.add("coincident_events")
@@ -187,6 +191,13 @@ def focused(tier):
         out.append(two_class_single("exact=%d preempt resume" % k, fam, c=1, K=2, prios=(1, 0), preempt="resume", arrA=DA, arrB=[0.2, 0.4], srvA=DS, srvB=DS,
                                     exact=k, features=["exact", "preempt_prio"]))
         out.append(tandem("exact=%d tandem block" % k, fam, c=(1, 1), caps=(None, 0), K=K, arr=DA, srv=[DS, [0.3, 0.1]], exact=k, features=["exact", "blocking"]))
+    # timetables whose later cycles are not exact in binary (0.1 + 3 * 0.3), with and without an offset; slots likewise
+    for k in (12, 20):
+        for off in (0.0, 0.1):
+            out.append(single("exact=%d sched cycle 0.3 offset %s" % (k, off), fam, K=K, T=2.0, arr=DA, srv=[0.2, 0.1], exact=k,
+                              c={"sched": {"numbers": [0, 1], "ends": [0.1, 0.3], "preempt": False, "offset": off}}, features=["exact", "schedule"]))
+            out.append(single("exact=%d slotted cycle 0.3 offset %s" % (k, off), fam, K=K, T=2.0, arr=DA, srv=[0.2, 0.1], exact=k,
+                              c={"slotted": {"slots": [0.1, 0.3], "sizes": [1, 1], "capacitated": False, "preempt": False, "offset": off}}, features=["exact", "slotted"]))
     # high precision (binary noise of a float is visible beyond ~17 digits) and samples that Python prints in exponent notation
     for k in (20, 28):
         out.append(single("exact=%d renege (high precision)" % k, fam, c=1, K=K, arr=DA, srv=DS, exact=k, classkw={"renege": [[0.3, 0.1]]}, features=["exact", "reneging"]))
